@@ -259,6 +259,26 @@ def check_calib(P: C.Part, c: Dict[str, Any]) -> None:
                 viol(P, f"sinusoid of amplitude {amp:.6g} analysed at its own frequency (L={L}, bin {f0 * L / fs:.3f}, psll={psll:.1f}, order={order}, K={K}): "
                         f"power spectrum = {pso!r}, expected A^2/2 = {tgt!r} within {bound:.3g} (rho={rho:.3g}, rho0={rho0:.3g})",
                      dict(sig0, subclaim="calibration", channel=nm), c, observed=pso, expected=tgt, tol=bound)
+    if iscsd and not full(P):
+        # cross density = 2*XY/(fs*S2) (Gxy_def) and cross spectrum = density*ENBW, against the reference estimator on both tones
+        _, _, XYr, _, a, b = _an.ref_bin(x, chans[1][1], D, L, w, omega, order)
+        tXY = _an.bin_tol(L, omega, a, b, order)[2]
+        k = 2.0 / (fs * S2)
+        for nm, ob, ex_, tl in (("XY", complex(res.XY[0]), XYr, tXY), ("Gxy", complex(res.Gxy[0]), k * XYr, k * tXY + 1e-12 * k * abs(XYr)),
+                                ("csd", complex(res.csd[0]), k * XYr, k * tXY + 1e-12 * k * abs(XYr)),
+                                ("cs", complex(res.cs[0]), 2 * XYr / (S1 * S1), 2 * tXY / (S1 * S1) + 1e-12 * abs(XYr) / (S1 * S1))):
+            if not abs(ob - ex_) <= tl:
+                viol(P, f"two tones (A={A:.4g}, B={c['B']:.4g}) at one frequency: {nm} = {ob!r} but the definition (2*XY/(fs*S2), times ENBW for cs) on the "
+                        f"reference estimator gives {ex_!r} (tol {tl:.3g}); L={L} fs={fs} order={order}", dict(sig0, subclaim="cross-density", field=nm), c,
+                     observed=ob, expected=ex_, tol=tl)
+                break
+        if order == -1:
+            tgt = A * c["B"] / 2 * complex(math.cos(c["phi"] - c["phi2"]), math.sin(c["phi"] - c["phi2"]))
+            bound = abs(tgt) * (2 * rho + rho * rho) + 2 * tXY / (S1 * S1) + 1e-9 * abs(tgt)
+            tight("cross spectrum |cs-(AB/2)e^{i dphi}|/bound", abs(complex(res.cs[0]) - tgt) / bound)
+            if not abs(complex(res.cs[0]) - tgt) <= bound:
+                viol(P, f"two tones (A={A:.4g}, B={c['B']:.4g}, phase difference {c['phi'] - c['phi2']:.4f}) at one frequency: cross spectrum cs = {complex(res.cs[0])!r}, "
+                        f"expected (AB/2)e^(i dphi) = {tgt!r} within {bound:.3g}", dict(sig0, subclaim="cross-calibration"), c, observed=complex(res.cs[0]), expected=tgt)
     P.sample({"op": "calib", **{k: c[k] for k in ("A", "L", "N", "fs", "f0", "psll", "order", "via", "cross")}, "K": K, "rho": rho,
               "ps": float(res.ps[0]) if not iscsd else None}, cap=3)
 
